@@ -51,6 +51,9 @@ import (
 	"time"
 )
 
+// maxFindingsPerSection bounds the findings written out per section (all are counted).
+const maxFindingsPerSection = 10
+
 type finding struct {
 	Section string      `json:"section"`
 	What    string      `json:"what"`
@@ -66,6 +69,10 @@ type output struct {
 	HistoriesChecked int   `json:"histories_checked"`
 	HistoryOps       int   `json:"history_ops"`
 	HistoriesUnknown int   `json:"histories_unknown"`
+	// HistoriesPorcupine counts the histories on which porcupine reached a verdict within its
+	// timeout (the own search decides the rest alone).
+	HistoriesPorcupine int `json:"histories_decided_by_porcupine_too"`
+	IllegalHistories   int `json:"illegal_histories"`
 	HammerOps        int   `json:"unstamped_ops"`
 
 	ChargesChecked     int                       `json:"charges_checked"`
@@ -93,6 +100,7 @@ type run struct {
 	onlyScenario  string
 	onlyRound     int
 	repeat        int
+	paranoid      bool
 	out           *output
 }
 
@@ -115,6 +123,7 @@ func main() {
 	round := flag.Int("round", -1, "run only this round of the selected scenarios")
 	repeat := flag.Int("repeat", 1, "execute every round's program this many times")
 	flipsPerRound := flag.Int("flips-per-round", 60, "section 3: schedule flips per round")
+	paranoid := flag.Bool("paranoid", false, "section 1: additionally run the reduction-free search on every history")
 	flag.Parse()
 	if *rounds < 1 || *gor < 2 || *repeat < 1 || *flipsPerRound < 1 || flag.NArg() != 0 {
 		fmt.Fprintln(os.Stderr, "usage: conc -seed <n> -rounds <r> [-goroutines <g>] -out <file.json>")
@@ -122,7 +131,7 @@ func main() {
 	}
 
 	r := &run{seed: *seed, rounds: *rounds, goroutines: *gor, flipsPerRound: *flipsPerRound,
-		onlyScenario: *scenario, onlyRound: *round, repeat: *repeat,
+		onlyScenario: *scenario, onlyRound: *round, repeat: *repeat, paranoid: *paranoid,
 		out: &output{Seed: *seed, Rounds: *rounds, Goroutines: *gor, GoMaxProcs: runtime.GOMAXPROCS(0), RaceEnabled: raceEnabled,
 			ChargesBySchedule: map[string]int{"A": 0, "B": 0}, SectionSeconds: map[string]float64{},
 			Findings: []finding{}, Samples: []map[string]interface{}{}}}
